@@ -339,7 +339,9 @@ fn check_doc(d: &Doc, cfg: &Cfg, cfg_name: &str, sig_class: &str) -> CaseResult 
                                             scope.push(c);
                                             k += 1;
                                         }
-                                        if raw.first().is_some_and(|c| c.is_ascii_digit()) || scope.is_empty() {
+                                        // (nor with a hyphen followed by a digit, nor be a hyphen alone)
+                                        let hyphen_digit = raw.first() == Some(&'-') && raw.get(1).map_or(true, |c| c.is_ascii_digit());
+                                        if raw.first().is_some_and(|c| c.is_ascii_digit()) || hyphen_digit || scope.is_empty() {
                                             // (an identifier cannot start with an unescaped digit: the selector matches nothing)
                                             scope = format!("<invalid selector #{scope}>");
                                         }
@@ -460,6 +462,10 @@ pub fn run(tier: Tier) -> i32 {
     for (ci, c) in FAMILY_REPS.iter().enumerate() {
         docs.push((Doc { body: format!("<svg xmlns=\"http://www.w3.org/2000/svg\"><rect width=\"5\" height=\"5\" class=\"{c}\"/><text x=\"1\" y=\"2\" class=\"{c}\">t</text></svg>"), root: true, author: ci % AUTHOR.len(), root_attrs: String::new() }, ci % cfgs.len(), format!("in-passed-through-svg/{c}")));
     }
+    // ... also when the class list is separated by a line break or a tab
+    for (si, sep) in ["\n", "&#9;", "  "].iter().enumerate() {
+        docs.push((Doc { body: format!("<svg xmlns=\"http://www.w3.org/2000/svg\"><rect width=\"5\" height=\"5\" class=\"d-fill-red{sep}d-softshadow\"/></svg>"), root: true, author: 0, root_attrs: String::new() }, 0, format!("in-passed-through-svg-separator/{si}")));
+    }
     // classes on the root element itself (with content, and as an empty root)
     for (ci, c) in vocab.iter().enumerate() {
         if FAMILY_REPS.contains(&c.as_str()) || ci % 7 == 0 {
@@ -472,7 +478,7 @@ pub fn run(tier: Tier) -> i32 {
         docs.push((Doc { body: carrier(c, 2), root: true, author: 0, root_attrs: " id=\"mine\"".into() }, usize::MAX, format!("local-author-id/{c}")));
     }
     // ... whatever characters that id is made of
-    for (k, id) in ["fig.1", "a:b", "1st", "x.y:z-1", "\u{e9}t\u{e9}", "a b", ""].iter().enumerate() {
+    for (k, id) in ["fig.1", "a:b", "1st", "x.y:z-1", "\u{e9}t\u{e9}", "a b", "", "-1", "-", "--x", "-a"].iter().enumerate() {
         docs.push((Doc { body: carrier(FAMILY_REPS[k % 6], 2), root: true, author: 0, root_attrs: format!(" id=\"{id}\"") }, usize::MAX, format!("local-author-id-chars/{k}")));
     }
     // local styles requested but auto-styles off: nothing at all is injected, not even an id
